@@ -498,6 +498,40 @@ Section Sound.
     apply (R_bool_intro r). destruct meth; cbn [ceval const_val]; destruct Hca as [-> | ->]; cbn; rewrite ?Er; auto.
   Qed.
 
+  (* the typing of the pattern operand of matches(): a string constant, or a string-like non-constant expression *)
+  Lemma matches_pattern_inv G ta (b : cexpr) (otb : option sty) t :
+    match b with
+    | EConst (KString _) => if is_strlike ta then Some SBool else None
+    | EConst _ => None
+    | _ => match otb with Some tb => if is_strlike ta && is_strlike tb then Some SBool else None | None => None end
+    end = Some t ->
+    otb = cty G b ->
+    t = SBool /\ is_strlike ta = true /\
+    ((exists p, b = EConst (KString p)) \/
+     ((forall k, b <> EConst k) /\ exists tb, cty G b = Some tb /\ is_strlike tb = true)).
+  Proof.
+    intros H E.
+    destruct b; try (destruct k; try discriminate);
+      try (destruct (is_strlike ta) eqn:Es; [|discriminate]; inv H; repeat split; auto; left; eauto; fail);
+      (destruct otb as [tb|]; [|discriminate];
+       destruct (is_strlike ta) eqn:Es; [|discriminate]; destruct (is_strlike tb) eqn:Et; [|discriminate]; cbn in H; inv H;
+       repeat split; auto; right; split; [intros k0 X; discriminate X | eauto]).
+  Qed.
+
+  (* a pattern that is not a constant: compiled at run time inside a guarded closure; when it is invalid the
+     closure yields false and cel-go yields an error, so nothing is claimed *)
+  Lemma matches_safe_case cenv vars (meth : bool) s p gs gp ts tp :
+    is_strlike ts = true -> is_strlike tp = true ->
+    R ts (CE cenv s) (GE vars gs) -> R tp (CE cenv p) (GE vars gp) ->
+    R SBool (CE cenv (if meth then EMeth1 FMatches s p else ECall2 FMatches s p)) (GE vars (GMatchSafe gp gs)).
+  Proof.
+    intros Hs Hp Ra Rb. destruct (R_str _ _ _ Hs Ra) as [x [Hga Hca]], (R_str _ _ _ Hp Rb) as [y [Hgb Hcb]].
+    cbn [geval]. rewrite Hga, Hgb.
+    destruct (re_match y x) as [r|] eqn:Er;
+      [apply (R_bool_intro r) | apply (R_bool_intro false)];
+      destruct meth; cbn [ceval]; destruct Hca as [-> | ->], Hcb as [-> | ->]; cbn; rewrite ?Er; auto.
+  Qed.
+
   Lemma binop_case G cenv vars fn a b t g :
     (cmp_fn fn <> None \/ arith_fn fn <> None) ->
     (forall ta ga, cty G a = Some ta -> TR a = Some ga -> R ta (CE cenv a) (GE vars ga)) ->
@@ -1153,11 +1187,16 @@ Section Sound.
         eapply in_literal_case; try eassumption. apply IHa; assumption.
       + (* FMatches *)
         cbn [cty] in Hty. destruct (cty G e1) as [ta|] eqn:Ea; [|discriminate].
-        destruct e2; try discriminate. destruct k; try discriminate.
-        destruct (is_strlike ta) eqn:Es; [|discriminate]. inv Hty.
-        cbn [tr tr_const pattern_ok] in Htr. destruct (TR e1) as [gs|] eqn:El; [|discriminate]. cbn [obind] in Htr.
-        destruct (re_ok s) eqn:Ep; [|discriminate]. inv Htr.
-        apply (matches_case cenv gvars false e1 s gs ta Ep Es). apply IHa; auto.
+        remember (cty G e2) as otb eqn:Eo.
+        destruct (matches_pattern_inv G ta e2 otb t Hty Eo) as (-> & Es & [[p ->] | [Hnc (tb & Eb & Et)]]).
+        * cbn [tr tr_const pattern_ok match_node] in Htr. destruct (TR e1) as [gs|] eqn:El; [|discriminate]. cbn [obind] in Htr.
+          destruct (re_ok p) eqn:Ep; [|discriminate]. inv Htr.
+          apply (matches_case cenv gvars false e1 p gs ta Ep Es). apply IHa; auto.
+        * cbn [tr] in Htr. destruct (TR e1) as [gs|] eqn:El; [|discriminate]. cbn [obind] in Htr.
+          destruct (TR e2) as [gp|] eqn:Er; [|discriminate]. cbn [obind] in Htr.
+          destruct (pattern_ok re_ok e2); [|discriminate]. inv Htr.
+          replace (match_node e2 gp gs) with (GMatchSafe gp gs) by (destruct e2; try reflexivity; exfalso; eapply Hnc; reflexivity).
+          apply (matches_safe_case cenv gvars false e1 e2 gs gp ta tb Es Et); [apply IHa; auto|apply IHb; auto].
     - (* EMeth1 *)
       apply andb_true_iff in Hs as [Hsa Hsb].
       assert (IHa : forall ta ga, cty G e1 = Some ta -> TR e1 = Some ga -> R ta (CE cenv e1) (GE gvars ga)).
@@ -1172,10 +1211,14 @@ Section Sound.
         destruct (TR e2) as [gp|] eqn:Er; [|discriminate]. cbn [omap] in Htr. inv Htr.
         apply (strfn_case cenv gvars FContains SContains e1 e2 gs gp ts tp I Es Ep); auto.
       + destruct (cty G e1) as [ts|] eqn:Ea; [|discriminate].
-        destruct e2; try discriminate. destruct k; try discriminate.
-        destruct (is_strlike ts) eqn:Es; [|discriminate]. inv Hty.
-        cbn [tr tr_const pattern_ok obind] in Htr. destruct (re_ok s) eqn:Ep; [|discriminate]. inv Htr.
-        apply (matches_case cenv gvars true e1 s gs ts Ep Es). auto.
+        remember (cty G e2) as otb eqn:Eo.
+        destruct (matches_pattern_inv G ts e2 otb t Hty Eo) as (-> & Es & [[p ->] | [Hnc (tb & Eb & Et)]]).
+        * cbn [tr tr_const pattern_ok obind match_node] in Htr. destruct (re_ok p) eqn:Ep; [|discriminate]. inv Htr.
+          apply (matches_case cenv gvars true e1 p gs ts Ep Es). auto.
+        * destruct (TR e2) as [gp|] eqn:Er; [|discriminate]. cbn [obind] in Htr.
+          destruct (pattern_ok re_ok e2); [|discriminate]. inv Htr.
+          replace (match_node e2 gp gs) with (GMatchSafe gp gs) by (destruct e2; try reflexivity; exfalso; eapply Hnc; reflexivity).
+          apply (matches_safe_case cenv gvars true e1 e2 gs gp ts tb Es Et); auto.
       + destruct (cty G e1) as [ts|] eqn:Ea; [|discriminate]. destruct (cty G e2) as [tp|] eqn:Eb; [|discriminate].
         destruct (is_strlike ts && is_strlike tp) eqn:Es; [|discriminate]. apply andb_true_iff in Es as [Es Ep]. inv Hty.
         destruct (TR e2) as [gp|] eqn:Er; [|discriminate]. cbn [omap] in Htr. inv Htr.
